@@ -77,12 +77,8 @@ def gpo_models(chk, tier, small=False):
     if small:
         pairs = [(1, 1), (2, 2), (3, 1), (3, 2)] if tier == "quick" else [(N, h) for N in (1, 2, 3, 4) for h in (1, 2, 3)]
     for (N, h) in pairs:
-        if 2 * h * N > (20 if tier == "quick" else 26):
-            rew = "{0}" if 2 * h * N > 30 else "{0, 1}"
-        else:
-            rew = "{0, 1}"
-        if 2 * h * N > 18 and tier == "quick":
-            rew = "{0}"
+        # the schedule is reward independent; two reward letters only while 2^(rounds) stays small
+        rew = "{0, 1}" if 2 * h * N + 2 <= (18 if tier == "quick" else 22) else "{0}"
         cfg = chk.write_cfg("gpo_N%d_h%d" % (N, h), {"NN": N, "HALF": h, "Rewards": rew, "Extra": 2}, invariants=["InvLearners", "InvValidation", "InvBudget", "InvFinal"], properties=["StepProp"])
         chk.mc("MC_GPO.tla", cfg, "gpo_N%d_h%d" % (N, h), workers=4)
     chk.exhaustive = True
